@@ -58,6 +58,10 @@ func (t *tracer) run(ctx context.Context) {
 	var termination sync.Once
 	defer close(t.done)
 
+	// a closed Done channel is always ready: it is selected on until it fires
+	// once and then disabled, otherwise this loop spins until termination
+	ctxDone := ctx.Done()
+
 	for {
 		select {
 		case sch := <-t.subscription:
@@ -86,7 +90,8 @@ func (t *tracer) run(ctx context.Context) {
 			for _, subscriber := range t.subscribers {
 				subscriber <- trace
 			}
-		case <-ctx.Done():
+		case <-ctxDone:
+			ctxDone = nil
 			// Start a termination waiting routine (only once)
 			termination.Do(func() {
 				go func() {
